@@ -257,6 +257,8 @@ def gen_series(rng, maxlen, n=None):
     n = min(n, maxlen)
     shape = rng.random()
     scale = rng.choice([1.0, 1.0, 0.05, 30.0, 1e4])
+    if rng.random() < 0.06:      # extreme but legal magnitudes (units: m3/s vs ML/year vs mm/s)
+        scale = rng.choice([1e-4, 1e8, 1e30])
     if shape < 0.7:
         obs = [math.exp(rng.gauss(0, 1)) * scale for _ in range(n)]
     elif shape < 0.85:
@@ -312,6 +314,122 @@ def gen_special(rng):
     n = rng.choice([140, 300])   # tiny mean relative to spread, long
     obs = [rng.gauss(0, 1) for _ in range(n)]
     return obs, [v + rng.gauss(0, 0.1) for v in obs], "centred"
+
+
+# ----------------------------------------------------------------------------
+# Data at the edge of the transform's domain.  Log, BoxCox2 and Reciprocal map values below
+# minus their shift to a missing value (NaN created BY THE TRANSFORM, in data that hold no NaN);
+# flow-like data with a few slightly negative values (measurement noise around zero, members of
+# a forecast below zero) reach this.  The scores are defined on the transformed series: a
+# forecast is scored with the statistic of its members that are valid in the transformed space,
+# pairs that are incomplete in the transformed space are removed by excludenull.
+
+EDGE_KINDS = ["partial", "partial", "partial", "partial", "partial+full", "partial+rawnan",
+              "partial+rawnan-same-row", "partial+negobs", "full", "rawnan", "inside", "none"]
+EDGE_P = [2, 2, 3, 3, 4, 5, 6, 7, 8, 9, 10, 16, 17, 51]
+EDGE_P_BIG = [128, 129, 599, 600, 601, 1000]      # numpy: block size of the pairwise sum, the two nanmedian paths
+
+
+def domain_bound(spec, scale):
+    """magnitude below zero at which the transform stops being defined (its shift), or a
+    magnitude comparable to small flows for the transforms defined everywhere"""
+    name, params = spec
+    return float(params[0]) if name in ("Log", "BoxCox2", "Reciprocal") else 0.1 * scale
+
+
+def gen_outside(rng, bound, kind="out"):
+    """a slightly negative value: outside the domain (below -bound), or negative but inside"""
+    k = rng.random()
+    if kind == "inside":
+        return -bound * rng.choice([rng.uniform(0.0, 0.99), 0.5, 1 - 2.0 ** -20, 1e-3])
+    if k < 0.6:
+        return -bound * rng.uniform(1.01, 5.0)
+    if k < 0.8:
+        return -bound * rng.choice([1 + 2.0 ** -30, 1.0 + 1e-9, 2.0, 30.0, 1e3])
+    if k < 0.9:
+        return -bound * rng.uniform(0.0, 0.99)      # negative, still admissible
+    return -abs(rng.gauss(0, 3 * bound)) - bound * 1.0001
+
+
+def gen_edge_ens(rng, spec, n, p, kind):
+    """(obs, ens, scale): flow-like observations and a p-member ensemble of them; depending on
+    `kind`, some (not all) members of some forecasts lie outside the domain of the transform
+    (partial), every member of a forecast does (full), members are missing in the data
+    (rawnan, in other forecasts or in the same ones), observations are slightly negative
+    (negobs), negative members stay inside the domain (inside)"""
+    scale = rng.choice([1.0, 1.0, 0.05, 30.0])
+    bound = domain_bound(spec, scale)
+    obs = [math.exp(rng.gauss(0, 1.2)) * scale for _ in range(n)]
+    noise = rng.choice([0.1, 0.5, 1.0])
+    ens = [[o * math.exp(rng.gauss(0, 0.4) + rng.gauss(0, noise)) for _ in range(p)] for o in obs]
+    layout = rng.random()
+    if layout < 0.2:       # rounded flows: tied members, tied forecasts
+        ens = [[float(round(v / scale * 4)) / 4 * scale for v in r] for r in ens]
+        if rng.random() < 0.5:
+            obs = [float(round(v / scale * 4)) / 4 * scale + scale / 8 for v in obs]
+    elif layout < 0.3:     # zero flows
+        ens = [[0.0 if rng.random() < 0.3 else v for v in r] for r in ens]
+    elif layout < 0.4:     # members stored in increasing / decreasing order
+        rev = rng.random() < 0.5
+        ens = [sorted(r, reverse=rev) for r in ens]
+    rows = list(range(n))
+    rng.shuffle(rows)
+    parts = kind.split("+")
+    nhit = max(1, int(n * rng.choice([0.1, 0.25, 0.5, 1.0])))
+    if "partial" in parts or "inside" in parts:
+        for i in rows[:nhit]:
+            k = rng.randint(1, p - 1) if rng.random() < 0.7 else rng.choice([1, p - 1])
+            for j in rng.sample(range(p), k):
+                ens[i][j] = gen_outside(rng, bound, "inside" if "inside" in parts else "out")
+    if "full" in parts:
+        for i in rows[nhit:nhit + max(1, n // 6)] or rows[:1]:
+            ens[i] = [gen_outside(rng, bound) for _ in range(p)]
+    if "rawnan" in parts:
+        for i in rows[::-1][:max(1, n // 5)]:
+            for j in rng.sample(range(p), rng.randint(1, p) if rng.random() < 0.2 else rng.randint(1, p - 1)):
+                ens[i][j] = NAN
+    if "rawnan-same-row" in parts:      # a forecast with a missing member AND a member outside the domain
+        for i in rows[:nhit]:
+            free = [j for j in range(p) if ens[i][j] >= 0]
+            if len(free) >= 2:
+                ens[i][rng.choice(free)] = NAN
+    if "negobs" in parts:
+        for i in rng.sample(range(n), max(1, n // 6)):
+            obs[i] = gen_outside(rng, bound)
+    if rng.random() < 0.15:
+        obs[rng.randrange(n)] = NAN
+    return obs, ens, scale
+
+
+def gen_edge_series(rng, spec, n):
+    """(obs, sim, label): flow-like series with a few values outside the domain of the
+    transform, in the observations / the simulation / both (same or other positions), in data
+    that hold no NaN, or NaN elsewhere"""
+    scale = rng.choice([1.0, 1.0, 0.05, 30.0])
+    bound = domain_bound(spec, scale)
+    obs = [math.exp(rng.gauss(0, 1.0)) * scale for _ in range(n)]
+    sim = [v * math.exp(rng.gauss(0, rng.choice([0.05, 0.5]))) for v in obs]
+    where = rng.choice(["obs", "sim", "sim", "both-same", "both-other", "inside"])
+    k = max(1, int(n * rng.choice([0.05, 0.2, 0.4])))
+    k = min(k, max(1, n - 3))
+    pos = rng.sample(range(n), k)
+    for i in pos:
+        if where in ("obs", "both-same", "both-other"):
+            obs[i] = gen_outside(rng, bound)
+        if where in ("sim", "both-same"):
+            sim[i] = gen_outside(rng, bound)
+        if where == "inside":
+            sim[i] = gen_outside(rng, bound, "inside")
+    if where == "both-other":
+        for i in rng.sample(range(n), k):
+            sim[i] = gen_outside(rng, bound)
+    holes = "clean"
+    if rng.random() < 0.3:
+        holes = "holes"
+        for l in (obs, sim):
+            if rng.random() < 0.7:
+                l[rng.randrange(n)] = NAN
+    return obs, sim, "edge-" + where + "/" + holes
 
 
 # ----------------------------------------------------------------------------
@@ -499,6 +617,13 @@ def run(ctx):
                 "perfect / constant / scaled / noisy simulations, NaN and +-inf scattered in either series, "
                 "5 transforms at admissible parameters, excludenull both ways, 3 bias types, Pearson/Spearman "
                 "x mean/median x 1-D and 2-D ensembles with missing members; guard/error inputs; "
+                "data at the edge of the transform's domain (NaN created by the transform in data holding none): "
+                "ensembles of 2..51 (and 128/129/599/600/601/1000) members x 2..60 forecasts (square included) with "
+                "some / all members of some forecasts below minus the shift of Log / BoxCox2 / Reciprocal (just "
+                "outside, far outside, negative but inside), alone or with members missing in the data (other "
+                "forecasts / the same forecast), slightly negative observations, tied / zero / sorted members, obs as "
+                "[n] or [n,1], shifts down to 1e-6, each with excludenull both ways; plain series with values outside "
+                "the domain in obs / sim / both; magnitudes 1e-4, 1e8, 1e30; "
                 "categorical: every pair of series of length <= 3 over 3 categories, random series of length "
                 "1..60 over 2..6 categories with absent categories, ncat given/inferred; binary: every table "
                 "with counts 1..6 (1296), random tables with counts up to 1e6, odds ratio <, =, > 1; "
@@ -667,14 +792,38 @@ def run(ctx):
             ea = np.array(ens, dtype=np.float64)
         if len(obs) == 1 and ea.ndim == 2 and ea.shape[1] > 1:
             return
-        tens = [[float(v) for v in forward(spec, r)] for r in ens]
+        score_corr(obs, ens, oa, ea, spec, trans, excl, label, p, special, samelen, base, tobs)
+
+    def near_tied(vals, rows, big):
+        """two forecasts with different members whose statistics agree to 1e-12 of the largest
+        member: their order (hence the ranks) may depend on how the member mean is rounded"""
+        idx = sorted(range(len(vals)), key=lambda k: vals[k])
+        for a, b in zip(idx, idx[1:]):
+            if vals[b] - vals[a] <= 1e-12 * big and rows[a] != rows[b]:
+                return True
+        return False
+
+    def score_corr(obs, ens, oa, ea, spec, trans, excl, label, p, special, samelen, base, tobs,
+                   klass="corr", coq=True, extra_sig=(), tens=None):
+        """corr x {mean, median} x {Pearson, Spearman} on the observations `obs` and the ensemble
+        `ens` (list of member lists; `oa`, `ea` = the arrays handed to the implementation):
+        correspondence case (coq=True) and the oracle: correlation of T(obs) with the statistic
+        of the valid (non-missing after the transform) members of T(ens), forecast by forecast"""
+        ident = ("Identity", [])
+        idt = make_trans(ident)
+        if tens is None:
+            tens = [[float(v) for v in r] for r in forward(spec, ens).reshape(len(ens), -1)] if ens else []
         for (si, stat), (yi, typ) in itertools.product(enumerate(["mean", "median"]),
                                                        enumerate(["Pearson", "Spearman"])):
             res = call(metrics.corr, oa, ea, trans, excl, stat, typ)
-            i = add(term_corr(excl, si, yi, obs, tobs, ens, tens, res, TOL),
-                    dict(base, call="corr", ens=ens, stat=stat, type=typ, impl=res),
-                    ("corr", stat, typ, excl, spec[0], min(p, 2), size_cls(len(obs)), label, res[0],
-                     res[0] == "ok" and math.isnan(res[1])))
+            replay = dict(base, call="corr", ens=ens, stat=stat, type=typ, impl=res)
+            sig = (klass, stat, typ, excl, spec[0], min(p, 2), size_cls(len(obs)), label, res[0],
+                   res[0] == "ok" and math.isnan(res[1])) + tuple(extra_sig)
+            if coq:
+                i = add(term_corr(excl, si, yi, obs, tobs, ens, tens, res, TOL), replay, sig)
+            else:
+                i = None
+                ctx.count(sig)
             # oracle: statistic of the transformed members (fsum / sorted), rows removed as documented
             if special or not samelen:
                 continue
@@ -693,28 +842,35 @@ def run(ctx):
                     fail(None, "C04/corr/transform-not-applied-first",
                          f"corr(obs, ens, {spec}, {stat}, {typ}) = {res} but on the transformed data with "
                          f"Identity it is {r2}",
-                         dict(base, call="corr", ens=ens, stat=stat, type=typ, impl=res, impl_on_transformed=r2))
-            rows = [(to, [v for v in tr if not math.isnan(v)])
+                         dict(replay, impl_on_transformed=r2))
+            # forecasts scored: an observation and at least one member in the data handed over
+            rows = [(to, tr, [v for v in tr if not math.isnan(v)])
                     for o, r, to, tr in zip(obs, ens, tobs, tens)
                     if not math.isnan(o) and any(not math.isnan(v) for v in r)]
-            if any(len(tr) == 0 for _, tr in rows):
-                continue   # a member lost in the transformed space only: left to the correspondence
-            xo = [to for to, _ in rows]
+            if not rows:
+                continue
+            if any(len(v) == 0 for _, _, v in rows) and not excl:
+                # every member of a forecast lost in the transformed space only: the simulated
+                # series has a missing value, no textbook value without excludenull
+                continue
+            xo = [to for to, _, _ in rows]
             try:
                 if stat == "mean":
-                    xs = [math.fsum(tr) / len(tr) for _, tr in rows]
+                    xs = [math.fsum(v) / len(v) if v else NAN for _, _, v in rows]
                 else:
                     xs = []
-                    for _, tr in rows:
-                        v = sorted(tr)
+                    for _, _, v in rows:
+                        v = sorted(v)
                         m = len(v)
-                        xs.append(v[m // 2] if m % 2 else (v[m // 2 - 1] + v[m // 2]) / 2)
+                        xs.append(NAN if m == 0 else v[m // 2] if m % 2 else (v[m // 2 - 1] + v[m // 2]) / 2)
             except (ValueError, OverflowError):
                 continue
-            if excl:
+            full = [tuple(repr(v) for v in tr) for _, tr, _ in rows]
+            if excl:      # incomplete pairs removed
                 keep = [not (math.isnan(a) or math.isnan(b)) for a, b in zip(xo, xs)]
                 xo = [a for a, k in zip(xo, keep) if k]
                 xs = [b for b, k in zip(xs, keep) if k]
+                full = [f for f, k in zip(full, keep) if k]
             if not (nondegenerate(xo) and spread_ok(xs)):
                 continue
             if typ == "Pearson":
@@ -724,16 +880,47 @@ def run(ctx):
             if want is None:
                 continue
             tolc = 1e-9
-            if stat == "mean" and p > 1:
-                # the member mean is rounded differently from fsum: ranks may flip only on exact ties
-                tolc = 1e-9 if typ == "Pearson" else None
+            if stat == "mean" and p > 1 and typ == "Spearman":
+                # the member mean is rounded differently from fsum: ranks may flip on (near-)ties only
+                bigm = max(abs(v) for _, _, vv in rows for v in vv)
+                if not math.isfinite(bigm) or near_tied(xs, full, bigm):
+                    tolc = None
             orc["corr = definition (" + typ + ")"] += tolc is not None
-            if tolc is not None and (res[0] != "ok" or abs(res[1] - want) > tolc + 1e-9 * abs(want)):
+            if tolc is not None and (res[0] != "ok" or not abs(res[1] - want) <= tolc + 1e-9 * abs(want)):
                 fail(i, f"C04/corr/{typ}/not-the-definition",
                      f"corr(stat={stat}, type={typ}, trans={spec}, excludenull={excl}) = {res}, "
-                     f"definition gives {want!r}")
+                     f"definition gives {want!r}", replay)
             if res[0] == "ok" and abs(res[1]) > 1 + 1e-12:
-                fail(i, f"C04/corr/{typ}/outside-unit-interval", f"corr = {res[1]!r}")
+                fail(i, f"C04/corr/{typ}/outside-unit-interval", f"corr = {res[1]!r}", replay)
+
+    def do_edge(n, p, coq):
+        """corr on ensembles at the edge of the transform's domain (see gen_edge_ens), both
+        values of excludenull on the same data; the ensemble in C order (the values are what the
+        class is about; do_repr covers the layouts)"""
+        name = rng.choice(["Log", "Log", "BoxCox2", "BoxCox2", "Reciprocal", "Reciprocal", "Sinh", "Identity"])
+        spec = gen_trans(rng, name)
+        if name in ("Log", "BoxCox2", "Reciprocal") and rng.random() < 0.3:      # small shifts
+            spec = (name, [rng.choice([1e-6, 1e-4, 0.01, 0.05])] + list(spec[1][1:]))
+        kind = rng.choice(EDGE_KINDS)
+        obs, ens, _ = gen_edge_ens(rng, spec, n, p, kind)
+        trans = make_trans(spec)
+        oa, ea = np.array(obs, dtype=np.float64), np.array(ens, dtype=np.float64)
+        if rng.random() < 0.2:      # corr documents obs as [n] or [n,1]
+            oa = oa[:, None]
+        tobs = [float(v) for v in forward(spec, obs)]
+        tens = [[float(v) for v in r] for r in forward(spec, ens).reshape(n, p)]
+        lostm = [sum(1 for a, b in zip(r, tr) if math.isnan(b) and not math.isnan(a)) for r, tr in zip(ens, tens)]
+        rawm = [sum(1 for a in r if math.isnan(a)) for r in ens]
+        what = (any(0 < l < p - m for l, m in zip(lostm, rawm)),        # some valid members left
+                any(l > 0 and l == p - m for l, m in zip(lostm, rawm)),  # forecast lost by the transform
+                any(m > 0 for m in rawm),
+                any(math.isnan(b) and not math.isnan(a) for a, b in zip(obs, tobs)))
+        pcls = 2 if p <= 3 else 3 if p < 8 else 4 if p <= 128 else 5
+        for excl in (False, True):
+            base = {"obs": obs, "obs_shape": list(oa.shape), "transform": spec, "excludenull": excl,
+                    "input_class": "ensemble with members outside the domain of the transform (" + kind + ")"}
+            score_corr(obs, ens, oa, ea, spec, trans, excl, "edge", p, False, True, base, tobs,
+                       klass="corr-edge", coq=coq, extra_sig=(pcls,) + what, tens=tens)
 
     def do_laws(obs, spec):
         """perfect simulation, simulated mean, invariances: on the implementation,
@@ -1123,6 +1310,20 @@ def run(ctx):
         obs, sim, label = gen_special(rng)
         spec = ("Identity", []) if rng.random() < 0.7 else gen_trans(rng)
         do_series(obs, sim, spec, rng.random() < 0.5, label, special=True)
+
+    # data at the edge of the transform's domain: ensembles (corr), then plain series (all scores)
+    for it in range(ctx.scale(110, 1200)):
+        big = it % 40 == 7
+        p = rng.choice(EDGE_P_BIG) if big else rng.choice(EDGE_P)
+        n = rng.choice([3, 4, 6]) if big else rng.choice([2, 3, 5, 8, 9, 12, 20, 40, p, rng.randint(2, 60)])
+        do_edge(n, p, coq=(n * p <= 128 and it % 2 == 0) or (ctx.thorough and n * p <= 600))
+    for it in range(ctx.scale(24, 300)):
+        name = rng.choice(["Log", "BoxCox2", "Reciprocal"])
+        spec = gen_trans(rng, name)
+        if rng.random() < 0.3:
+            spec = (name, [rng.choice([1e-6, 1e-4, 0.01, 0.05])] + list(spec[1][1:]))
+        obs, sim, label = gen_edge_series(rng, spec, rng.choice([4, 8, 9, 17, 40, rng.randint(4, 60)]))
+        do_series(obs, sim, spec, rng.random() < 0.7, label)
 
     # ------------------------------------------------------------------
     # confusion matrix
